@@ -22,7 +22,7 @@ func init() {
 		ID:    "C18",
 		Title: "Built-in functions obey their algebraic contracts for all arguments",
 		Level: "exploration",
-		Rule: "IF with computed branches and a NULL condition; CONCAT / CHANGETYPE texts of numbers by their decimal text (1e6 and more, 1e-7). also: open-ended DATERANGE, CONSTANT inside nested queries next to other options, a defaults map shared between queries, UNWIND over arrays with spare capacity and calls that share their first group. phase 'big': FIRST / LAST / ELEMENTAT over arrays of more than a million elements (indexes whose float text carries an exponent). each case = one built-in function (DECODE/ENCODE, HASH, FIRST, LAST, ELEMENTAT, UNWIND, ARRAY, CONCAT, IF, TO_LOWER, TO_UPPER, CHANGETYPE, DATERANGE, CONSTANT, and every fixed-arity function with arity +-1) x random arguments of every JSON scalar kind and arrays thereof (empty, nested, with NULLs), " +
+		Rule: "phase 'twins': two calls of one function that differ in letter case only, each alone and both together; IF guarding a branch that cannot be evaluated. IF with computed branches and a NULL condition; CONCAT / CHANGETYPE texts of numbers by their decimal text (1e6 and more, 1e-7). also: open-ended DATERANGE, CONSTANT inside nested queries next to other options, a defaults map shared between queries, UNWIND over arrays with spare capacity and calls that share their first group. phase 'big': FIRST / LAST / ELEMENTAT over arrays of more than a million elements (indexes whose float text carries an exponent). each case = one built-in function (DECODE/ENCODE, HASH, FIRST, LAST, ELEMENTAT, UNWIND, ARRAY, CONCAT, IF, TO_LOWER, TO_UPPER, CHANGETYPE, DATERANGE, CONSTANT, and every fixed-arity function with arity +-1) x random arguments of every JSON scalar kind and arrays thereof (empty, nested, with NULLs), " +
 			"passed both as SQL literals and as column references of a one-row table; indices from {-2,-1,0,n-1,n,n+3}; bases / algorithms / type names incl. unknown ones. The value returned by the real `SELECT f(args) AS v ...` (and its error-ness) is compared with a per-function reference implementation. " +
 			"Non-trivial = every in-domain case (each compares a computed value or an expected error); distinct = distinct (function, arguments).",
 		Assumptions: []string{
@@ -30,7 +30,7 @@ func init() {
 			"textual forms (CONCAT, CHANGETYPE string) are asserted for strings, booleans and finite numbers (by their decimal text, no exponent)",
 			"base / algorithm / type names are given in lower case as the statement spells them; ENCODE/HASH of NULL is not asserted (NULL is not a scalar value)",
 		},
-		Floor:         append([]string{"elementat.big", "if.computed-branch", "if.computed-branch.null-condition", "text.decimal", "twins.literal-case", "twins.name-case"}, c18Kinds...),
+		Floor:         append([]string{"elementat.big", "if.computed-branch", "if.computed-branch.null-condition", "text.decimal", "twins.literal-case", "twins.name-case", "if.guards-unpicked-branch"}, c18Kinds...),
 		MinNontrivial: 100,
 		Phases: []fw.Phase{
 			{Name: "fn", N: func(t fw.Tier) int { return pick(t, 30000, 1000000) }, Run: c18Run},
@@ -331,6 +331,16 @@ func c18Run(c *fw.Case) {
 			if cs == "NULL" || cs == "nokey" {
 				c.Feature("if.computed-branch.null-condition")
 			}
+		}
+		if c.Chance(0.2) {
+			// the branch that is not picked cannot be evaluated at all: IF guards it
+			bad := gen.Pick(c.R, []string{"ELEMENTAT(ARRAY(1), 5)", "FIRST(5)", "ELEMENTAT(ARRAY(1, 2), 0 - 1)", "CHANGETYPE('x', 'integer')"})
+			if cond {
+				ys = bad
+			} else {
+				xs = bad
+			}
+			c.Feature("if.guards-unpicked-branch")
 		}
 		call = fmt.Sprintf("IF(%s, %s, %s)", cs, xs, ys)
 		want = y
